@@ -17,6 +17,7 @@ func init() {
 
 func C08(c *Ctx) {
 	c.Note("byte-for-byte equality of values; GC never losing a live value under concurrent overwrite; discard-ratio logic; the C01 version-tie recency (GC re-inserts reuse the original internal key)")
+	vlogRemovalGroup(c, "K1.vlog-segment-removal-preconditions")
 	const r1 = "K1.vlog-before-lsm"
 	c.Rule(r1, "DB.commitWorker: valueLog.write()==nil precedes applyRequests, and a value-log failure is acknowledged with that error without applying; DB.writeToLSM stores the encoded pointer (Ptrs[i].Encode) for every entry not kept inline")
 	ackAfterApply(c, r1)
@@ -563,7 +564,10 @@ func gcLiveness(c *Ctx, rule string, proc *ssa.Function) {
 				env := &SignEnv{Classify: classify, Signs: map[string]int{"Bucket": sb, "Fid": sf, "Offset": so}, Depth: 2}
 				reach := env.Reaches(proc, g)
 				explored += env.Visited
-				superseded := sb != 0 || sf > 0 || (sf == 0 && so > 0)
+				// only the record the LSM points at is live: a newer pointer means it was
+				// overwritten, an older one that it never became visible (a lost write kept by
+				// recovery as an orphan record)
+				superseded := sb != 0 || sf != 0 || so != 0
 				if superseded && reach && mustSkipBad == "" {
 					mustSkipBad = fmt.Sprintf("live pointer vs scanned record: bucket %s, fid %s, offset %s", signStr(sb), signStr(sf), signStr(so))
 				}
@@ -573,7 +577,7 @@ func gcLiveness(c *Ctx, rule string, proc *ssa.Function) {
 			}
 		}
 	}
-	c.Decide(mustSkipBad == "", rule, key(proc, "reinsert-unreachable-when-superseded"), g.Pos(), explored, "for all 27 orderings of (bucket, fid, offset): a record whose live pointer is in another bucket or at a newer (fid, offset) is never re-inserted", "a superseded record can be re-inserted ("+mustSkipBad+"): GC brings back an overwritten value / moves a key to the wrong bucket")
+	c.Decide(mustSkipBad == "", rule, key(proc, "reinsert-unreachable-when-superseded"), g.Pos(), explored, "for all 27 orderings of (bucket, fid, offset): only the record the LSM points at exactly is re-inserted", "a record the LSM does not point at can be re-inserted ("+mustSkipBad+"): GC brings back an overwritten value, or brings to life a write that was lost before it reached the WAL (the LSM still points at the older record)")
 	c.Decide(keepBad == "", rule, key(proc, "reinsert-reachable-when-live"), g.Pos(), explored, "the record the LSM points at is re-inserted", "the live record ("+keepBad+") is not re-inserted: GC drops a live value when it deletes the file")
 	// copies from the scanned entry (parameter 0)
 	var scanned *ssa.Parameter
